@@ -9,7 +9,7 @@ the deterministic strategy who runs next and, if that is someone else, wakes
 them and parks.  See DESIGN.md 1.1.
 '''
 
-import os, sys, mmap as _real_mmap, signal, struct, hashlib, select, errno
+import os, sys, mmap as _real_mmap, signal, struct, hashlib, select, errno, linecache
 import multiprocessing as _real_mp
 import numpy
 
@@ -354,15 +354,15 @@ class Sim:
             self._wake(nxt)
             self._park()
 
-    def yield_point(self, kind, obj=0, a=0, b=0):
+    def yield_point(self, kind, obj=0, a=0, b=0, raisable=False):
         if self.postmortem or not self.active:
             return
         self.observe_writes()
         self.log(kind, obj, a, b)
-        self._count_and_fault(kind)
+        self._count_and_fault(kind, raisable)
         self._switch()
 
-    def _count_and_fault(self, kind):
+    def _count_and_fault(self, kind, raisable=False):
         yc = self.ycount[self.me]
         yc[kind] += 1
         yc[0] += 1
@@ -372,12 +372,16 @@ class Sim:
                 if self.fired[i]:
                     continue
                 yk = K[f.get('ykind', 'ANY')]
-                if (yk == 0 or yk == kind) and yc[yk] == f['n']:
-                    fk = f['kind']
-                    if fk == 'KILL':
+                fk = f['kind']
+                if fk == 'KILL':
+                    if (yk == 0 or yk == kind) and yc[yk] == f['n']:
                         self.fired[i] = 1
                         self._die()
-                    elif fk == 'RAISE' and kind == K_LINE:
+                elif fk == 'RAISE':
+                    # fires at the first raisable line event at or after the n-th one (a line event on a `with`
+                    # statement may be the re-visit that precedes the __exit__ call: raising there would skip
+                    # __exit__, which no failing operation of the program itself can do)
+                    if kind == K_LINE and raisable and yc[K_LINE] >= f['n']:
                         self.fired[i] = 1
                         self.log(K_F_RAISE, i)
                         raise InjectedFault('injected allocation failure')
@@ -582,9 +586,13 @@ class Sim:
             return self._ltrace
         return None
 
+    def _raisable(self, frame):
+        line = linecache.getline(frame.f_code.co_filename, frame.f_lineno).lstrip()
+        return not line.startswith('with ')
+
     def _ltrace(self, frame, event, arg):
         if event == 'line':
-            self.yield_point(K_LINE, 0, 0)
+            self.yield_point(K_LINE, 0, 0, raisable=self._raisable(frame))
         return self._ltrace
 
     def _ltrace_next(self, frame, event, arg):
@@ -593,7 +601,7 @@ class Sim:
                 r = getattr(getattr(frame.f_locals.get('self'), '_index', None), '_r', -1)
                 self.log(K_NEXTRET, r, int(arg))
         elif event == 'line' and self.granularity == 'line':
-            self.yield_point(K_LINE, 1, 0)
+            self.yield_point(K_LINE, 1, 0, raisable=self._raisable(frame))
         return self._ltrace_next
 
     # ---------------------------------------------------------------- summaries
